@@ -178,6 +178,7 @@ type world struct {
 	surv    []op // surviving (non-reverted) content operations and transaction boundaries since the empty state
 	since   int  // journalled steps since the last transaction boundary
 	viaSnap bool
+	flatAt  int // hist.flattens when this StateDB (or the one it was copied from) was opened
 }
 
 type failure struct {
@@ -229,15 +230,16 @@ func (s *stats) flush(r *core.Run) {
 }
 
 type hist struct {
-	fl     flavour
-	disk   kaidb.Database
-	tree   *snapshot.Tree
-	gdb    gstate.Database
-	worlds []*world
-	st     *stats
-	step   int
-	undone bool // a revert undid at least one journalled step
-	clock  int64
+	fl       flavour
+	disk     kaidb.Database
+	tree     *snapshot.Tree
+	gdb      gstate.Database
+	worlds   []*world
+	st       *stats
+	step     int
+	undone   bool // a revert undid at least one journalled step
+	clock    int64
+	flattens int // Tree.Cap calls that flattened layers so far
 }
 
 func (h *hist) fail(key, format string, args ...interface{}) *failure {
@@ -345,6 +347,19 @@ func (h *hist) check(w *world, only int, keyPrefix string) *failure {
 	if err := w.real.Error(); err != nil {
 		return h.fail("db-error", "StateDB.Error() = %v", err)
 	}
+	if only < 0 && h.tree != nil && w.viaSnap && w.since == 0 {
+		// long-lived reader: the same snapshot layer object, cold caches
+		cp := w.real.Copy()
+		h.st.count("cold_reader_checks", 1)
+		if h.flattens > w.flatAt {
+			h.st.count("cold_reader_checks_across_flatten", 1)
+		}
+		f := h.coldCopy(w, cp, want, "the model")
+		cp.StopPrefetcher()
+		if f != nil {
+			return f
+		}
+	}
 	if w.geth != nil && only < 0 {
 		g := observeGeth(w.geth, w.m)
 		h.st.count("three_way_comparisons", 1)
@@ -363,6 +378,24 @@ func (h *hist) check(w *world, only int, keyPrefix string) *failure {
 		}
 	}
 	return nil
+}
+
+// coldCopy: a Copy() taken at a transaction boundary has cold caches and reads
+// through the same snapshot layer object as the original. It must answer every
+// getter like want. A difference is attributed to the snapshot layers when
+// layers were flattened since the original was opened (the StateDB is then a
+// long-lived reader of a layer that is no longer in the tree), else to Copy.
+func (h *hist) coldCopy(w *world, cp *kstate.StateDB, want obs, wantWhat string) *failure {
+	got := observeReal(cp)
+	want.TxIndex = 0 // a copy has a fresh transaction context
+	if got == want {
+		return nil
+	}
+	field, detail := diff(&got, &want, -1)
+	if h.tree != nil && w.viaSnap && h.flattens > w.flatAt {
+		return h.fail("snapshot-layer:reader-across-flatten:"+field, "a StateDB opened through a snapshot layer keeps being used (here: copied, so that its caches are cold) after later layers were flattened with Tree.Cap; the layer is not marked stale but no longer answers for its own root (got = cold copy, want = %s): %s", wantWhat, detail)
+	}
+	return h.fail("copy:differs-at-copy-time:"+field, "Copy() at a transaction boundary differs (got = copy, want = %s): %s", wantWhat, detail)
 }
 
 // mutateAll applies one of every setter to every address and slot (used on copies
@@ -846,6 +879,7 @@ func (h *hist) commit(w *world, o op) *failure {
 				return h.fail("snapshot-cap-error", "Tree.Cap(root, %d): %v", capLayers, err)
 			}
 			h.st.count("snapshot_layers_flattened", 1)
+			h.flattens++
 			if f := readBack(true, "snapshot-flattened"); f != nil {
 				return f
 			}
@@ -855,14 +889,14 @@ func (h *hist) commit(w *world, o op) *failure {
 	if err != nil {
 		return h.fail("reopen-error", "state.New(%x) failed after Commit: %v", root[:6], err)
 	}
-	w.real, w.db, w.viaSnap = s, db, via
+	w.real, w.db, w.viaSnap, w.flatAt = s, db, via, h.flattens
 	return nil
 }
 
 // copyFork: Copy() at a transaction boundary; both StateDBs continue.
 func (h *hist) copyFork(w *world, o op) *failure {
 	cp := w.real.Copy()
-	nw := &world{real: cp, db: w.db, m: w.m.copy(), surv: append([]op(nil), w.surv...), viaSnap: w.viaSnap}
+	nw := &world{real: cp, db: w.db, m: w.m.copy(), surv: append([]op(nil), w.surv...), viaSnap: w.viaSnap, flatAt: w.flatAt}
 	nw.m.thash, nw.m.txIndex = 0, 0 // a copy starts with a fresh transaction context (not part of the state)
 	if w.geth != nil {
 		nw.geth = w.geth.Copy()
@@ -878,23 +912,23 @@ func (h *hist) copyFork(w *world, o op) *failure {
 		h.worlds[i].real.StopPrefetcher()
 		h.worlds[i] = nw
 	}
-	return h.check(nw, -1, "copy:differs-at-copy-time:")
+	// the copy must answer every getter like the original does right now (whatever the model thinks)
+	return h.coldCopy(w, cp, observeReal(w.real), "the original's own getters")
 }
 
 // copyProbe: Copy() in the middle of a transaction. The copy cannot revert and
 // has lost the journal's dirty set, so it is not continued; it is only checked
 // for equality at copy time and for independence in both directions.
 func (h *hist) copyProbe(w *world, o op) *failure {
-	want := w.m.observe()
 	h.st.count("copies_mid_transaction", 1)
 	cp := w.real.Copy()
 	defer cp.StopPrefetcher()
+	got, want := observeReal(cp), observeReal(w.real) // want: the original's own getters, whatever the model thinks
 	wantCp := want
 	wantCp.TxIndex = 0
-	got := observeReal(cp)
 	if got != wantCp {
 		field, detail := diff(&got, &wantCp, -1)
-		return h.fail("copy:differs-at-copy-time:"+field, "Copy() in mid-transaction differs from the original: %s", detail)
+		return h.fail("copy:differs-at-copy-time:"+field, "Copy() in mid-transaction differs from the original (got = copy, want = original): %s", detail)
 	}
 	mutateAll(cp, o.X)
 	got = observeReal(w.real)
